@@ -317,6 +317,10 @@ class SimFI:
                 inner = ("CCACCTINFO", [("CCACCTFROM", [("ACCTID", a["acctid"])]),
                                         ("SUPTXDL", "Y"), ("XFERSRC", "N"), ("XFERDEST", "N"),
                                         ("SVCSTATUS", a["status"])])
+            elif kind == "bp":      # bill-payment listing of a bank account: not a statement account
+                inner = ("BPACCTINFO", [("BANKACCTFROM", [("BANKID", a["bankid"]), ("ACCTID", a["acctid"]),
+                                                          ("ACCTTYPE", a["accttype"])]),
+                                        ("SVCSTATUS", a["status"])])
             else:
                 inner = ("INVACCTINFO", [("INVACCTFROM", [("BROKERID", a["brokerid"]), ("ACCTID", a["acctid"])]),
                                          ("USPRODUCTTYPE", "OTHER"), ("CHECKING", "N"),
